@@ -33,6 +33,7 @@ Definition gen_submitters : list string := [].
 Definition gen_send_result_deadline_ms : N := 0%%N.
 Definition gen_yield_retry_delay_ms : N := 0%%N.
 Definition gen_yield_retry_keeps_invocation : option bool := Some false.
+Definition gen_invocation_drops : list (string * string * bool) := [("translator failed", "", false)].
 Definition gen_queue_makes : list (string * string * string) := [].
 """
 
@@ -143,6 +144,7 @@ def skeleton_report():
         rep["yield_keep"] = m.group(1) if m else None
     except OSError:
         pass
+    rep["bad_invocation_drops"] = re.findall(r'\(\s*"(router\.[^"]+)",\s*"([A-Za-z_]+\.go:\d+)"\s*\)', bl[-1]) if bl else []
     rep["ok"] = True
     return rep
 
